@@ -1,0 +1,15 @@
+//go:build verif
+// +build verif
+
+package bal_slb
+
+// VerifGate, when installed (build tag verif), is called at named points inside the
+// balancer while brr's lock is held; a verification harness uses it as a scheduler gate
+// to interleave backend availability changes deterministically.
+var VerifGate func(point string)
+
+func verifGate(point string) {
+	if VerifGate != nil {
+		VerifGate(point)
+	}
+}
